@@ -26,6 +26,11 @@ partial def loop (h : IO.FS.Stream) (out : IO.FS.Stream) (m : Mode) : IO Unit :=
         out.putStrLn s
         loop h out (.reg r')
       | .kv s =>
+        if l.op = "query" then
+          let rows := opQuery s l.p0 (l.nat "q")
+          out.putStrLn (s!"r=ok n={rows.length} again=false rows=" ++ ";".intercalate rows)
+          loop h out m
+        else
         match toOp l with
         | none =>
           out.putStrLn "r=model-unknown-op"
